@@ -110,7 +110,8 @@ def run(eng, ctx):
         if e.kind == "call" and mentions(e.term, lambda s: s == msg):
             t = e.term
             okuse = (t[2] == ("func", "rtcmhelpers.calc_crc24q") or t[2] == ("class", eng.message_cls) or (t[2][0] == "class" and t[2][1].startswith("exceptions."))
-                     or (t[2] == ("builtin", "len") and t[3] == (msg,)))
+                     or (t[2] == ("builtin", "len") and t[3] == (msg,))
+                     or (t[2] == ("attr", ("builtin", "int"), "from_bytes") and t[3] and t[3][0] == ("slice", msg, ("const", -cb), ("const", None), ("const", None))))  # trailer value compared with the computed CRC
             if not okuse:
                 ctx.bad("C08.D4", f.qualname, show(t)[:80], expected="message bytes used only by the CRC test, the payload slice and the error text", found="other use of the message bytes", **eng.loc(f, e.node))
     ctx.instance("constructor sites in parse", sum(1 for e in se.effects if e.kind == "call" and e.term[2] == ("class", eng.message_cls)), 1)
